@@ -131,7 +131,11 @@ def with_zero_instances(ob, max_arity=3):
     ob.schem = list(ob.schem) + extra; ob.pc = list(ob.pc) + ground
 
 def run_function(fn, spec):
-    E = Engine15(fn, spec); E.run()
+    E = Engine15(fn, spec)
+    try: E.run()
+    except Unsupported: raise
+    except (KeyError, AttributeError, IndexError, TypeError, z3.Z3Exception) as e:          # same discipline as pyvc.run_function: a changed function the sidecar no longer fits is 'outside the subset', not a crash
+        raise Unsupported(f'stale contract or unsupported shape: {type(e).__name__}: {e}')
     if getattr(spec, 'zero_instances', False):             # sidecars of functions that index with the literal 0
         for ob in E.obs: with_zero_instances(ob)
     return E
@@ -166,8 +170,8 @@ def verify(rep, prop, fn, spec, timeout=60000, B=2, backend='z3-qf(typed-instant
         out.append(o); rep.add(o)
     return out
 
-def mutant_fails(fn, spec, timeout=20000, only=None):
+def mutant_fails(fn, spec, timeout=20000, only=None, canary=True):
     """labels of the obligations of a (mutated) function that are NOT proved under the sidecar contract"""
     E = run_function(fn, spec)
     if only is not None: E.obs = [ob for ob in E.obs if only(ob.label)]
-    return [rel_label(fn, ob.label) for ob, st, dt, det, mv in pyvc.decide_parallel(E, spec, timeout=timeout, canary=True) if st != 'proved']
+    return [rel_label(fn, ob.label) for ob, st, dt, det, mv in pyvc.decide_parallel(E, spec, timeout=timeout, canary=canary) if st != 'proved']
